@@ -450,6 +450,16 @@ func runC10(s *Sim) {
 		if dials > dialsAtConnClose {
 			s.Violate("C10.reconnect-after-close", outage, "%d dial(s) after Conn.Close had returned", dials-dialsAtConnClose)
 		}
+		// every transport the client ever dialled has been closed by it (or had died before)
+		for _, l := range y.allLinks() {
+			s.mu.Lock()
+			open := !l.clientClosed && !l.isDead
+			s.mu.Unlock()
+			if open {
+				s.Violate("C10.transport-left-open", outage, "80 s after Conn.Close returned the client still holds %s open (never closed by the client): it goes on answering and sending keepalive on it", l)
+				break
+			}
+		}
 		for _, c := range s.Broker.Conns {
 			if c.Disconnect == nil {
 				continue
